@@ -362,7 +362,8 @@ def U1(vc):
       * every collaborator (lifecycle, registry, settings, memories, indexers/indices, insights, identity, vault, memo) an
         activity receives is the one GIVEN to spawn_tasks, or -- when omitted (None: what kopf.run() passes by default)
         -- one and the same non-None default for all activities; for the registry and the lifecycle THE default ones
-        (registries.get_default_registry(), lifecycles.get_default_lifecycle(): where the decorators register);
+        (registries.get_default_registry(), lifecycles.get_default_lifecycle(): where the decorators register), and for
+        the identity the generated per-process one (peering.detect_own_id(manual=False): peers of C13 must differ);
       * the operator's vault and settings are put into the context variables (auth.vault_var: what every API call
         reads, contract A-series of c12; posting.settings_var) BEFORE the first task is created (tasks copy the context);
       * the indexers are pre-populated from the registry's indexing handlers before anything can run (the first
@@ -464,7 +465,8 @@ def U1(vc):
         'lifecycles.get_default_lifecycle': lambda: D['lifecycle'], 'registries.get_default_registry': lambda: D['registry'],
         'configuration.OperatorSettings': lambda: D['settings'], 'inventory.ResourceMemories': lambda: D['memories'],
         'indexing.OperatorIndexers': lambda: D['indexers'], 'references.Insights': lambda: D['insights'],
-        'peering.detect_own_id': lambda **kw: D['identity'], 'credentials.Vault': lambda: D['vault'], 'ephemera.Memo': lambda: D['memo'],
+        'peering.detect_own_id': lambda *, manual: Opaque('the fixed user@host identity of CLI commands') if manual else D['identity'],
+        'credentials.Vault': lambda: D['vault'], 'ephemera.Memo': lambda: D['memo'],
     })
     ld = vc.load('kopf._core.reactor.running', 'spawn_tasks', stubs=stubs)
     A = G if given else dict.fromkeys(G)
@@ -543,7 +545,7 @@ def U1(vc):
         vc.ensure('collaborators_given_or_default', all(v is not None and v is vs[0] for v in vs))
         if given:
             vc.ensure('collaborators_given_or_default', vs[0] is G[k])
-        elif k in ('registry', 'lifecycle'):
+        elif k in ('registry', 'lifecycle', 'identity'):
             vc.ensure('collaborators_given_or_default', vs[0] is D[k])
     vc.ensure('collaborators_given_or_default', {'registry', 'settings', 'vault', 'memo', 'memories', 'insights'} <= set(seen))
     eff = {k: vs[0] for k, vs in seen.items()}
